@@ -41,4 +41,65 @@ theorem tapeSlices_cover (n : Nat) : ∀ (R : Nat),
     have := List.range'_append_1 (s := 0) (m := R * n) (n := n)
     simpa using this
 
+/-! ## the genetic component with raw dosages (`normalize=False`): `Σ_j β_j · dosage_j`, by ID
+
+`cols` = the dosage columns the genotypes hold, by variant ID; `effects` = the requested causal variables with their betas.
+`PhenoSimulator.run` pairs betas and columns *by position* after a by-ID subset; the pairing is by ID only if the subset
+returned a column for every effect.  `aligned` is what the repaired code does first (F32): effects whose variant is absent
+are dropped, so that positions and IDs agree. -/
+
+abbrev Cols := List (String × List Int)
+
+def aligned (cols : Cols) (effects : List (String × Rat)) : List (String × Rat) :=
+  effects.filter (fun e => (cols.lookup e.1).isSome)
+
+/-- dosage of variant `v` in sample `i` (0 where the column is shorter: never the case for a rectangular matrix) -/
+def dosageAt (cols : Cols) (v : String) (i : Nat) : Int := ((cols.lookup v).getD []).getD i 0
+
+/-- the genetic component of sample `i` -/
+def genetic (cols : Cols) (effects : List (String × Rat)) (i : Nat) : Rat :=
+  ((aligned cols effects).map (fun e => e.2 * (dosageAt cols e.1 i : Rat))).sum
+
+/-- before the fix: the columns found, in the order of the effects, multiplied position by position with *all* betas –
+    numpy broadcasts a single found column over every beta -/
+def geneticOld (cols : Cols) (effects : List (String × Rat)) (i : Nat) : Option Rat :=
+  let foundCols := (aligned cols effects).map (fun e => (dosageAt cols e.1 i : Rat))
+  let betas := effects.map (·.2)
+  if foundCols.length = betas.length then some ((List.zipWith (· * ·) betas foundCols).sum)
+  else match foundCols with
+    | [d] => some ((betas.map (· * d)).sum)        -- broadcast
+    | _ => none                                     -- shape error
+
+theorem aligned_all_found (cols : Cols) (effects : List (String × Rat)) :
+    ∀ e ∈ aligned cols effects, (cols.lookup e.1).isSome := by
+  intro e he
+  unfold aligned at he
+  exact (List.mem_filter.mp he).2
+
+/-- an effect whose variant the genotypes do not hold adds nothing, wherever it stands in the list -/
+theorem absent_effect_adds_nothing (cols : Cols) (pre post : List (String × Rat)) (x : String) (b : Rat)
+    (hx : cols.lookup x = none) (i : Nat) :
+    genetic cols (pre ++ (x, b) :: post) i = genetic cols (pre ++ post) i := by
+  unfold genetic aligned
+  simp [List.filter_append, List.filter_cons, hx]
+
+/-- every effect that is found contributes its own beta times the dosage of the variant bearing its ID -/
+theorem genetic_cons_found (cols : Cols) (x : String) (b : Rat) (rest : List (String × Rat))
+    (hx : (cols.lookup x).isSome) (i : Nat) :
+    genetic cols ((x, b) :: rest) i = b * (dosageAt cols x i : Rat) + genetic cols rest i := by
+  unfold genetic aligned
+  simp [List.filter_cons, hx]
+
+theorem genetic_nil (cols : Cols) (i : Nat) : genetic cols [] i = 0 := by
+  simp [genetic, aligned]
+
+/-- the order in which the effects are listed does not matter (swap of neighbours; any permutation is a sequence of these) -/
+theorem genetic_swap (cols : Cols) (pre post : List (String × Rat)) (e f : String × Rat) (i : Nat) :
+    genetic cols (pre ++ e :: f :: post) i = genetic cols (pre ++ f :: e :: post) i := by
+  unfold genetic aligned
+  simp only [List.filter_append, List.filter_cons, List.map_append, List.sum_append]
+  congr 1
+  by_cases he : (cols.lookup e.1).isSome <;> by_cases hf : (cols.lookup f.1).isSome <;>
+    simp [he, hf, Rat.add_comm, Rat.add_left_comm]
+
 end PhenoSim
